@@ -329,7 +329,8 @@ where
             eprintln!("Progress bar thread emitted error message: {:?}", e);
         }
 
-        let sample_f32 = sample.to_data();
+        // The summary is computed in f32 whatever the backend's float type is.
+        let sample_f32 = sample.to_data().convert::<f32>();
         let view =
             ArrayView3::<f32>::from_shape(sample.dims(), sample_f32.as_slice().unwrap()).unwrap();
         let run_stats = RunStats::from(view);
